@@ -9,7 +9,7 @@ import (
 	"github.com/KevoDB/kevo/pkg/zzverif/vsym"
 )
 
-func VerifTomb() {
+func VerifC07_TombstoneTracker() {
 	t := NewTombstoneTracker(time.Hour)
 	var wg sync.WaitGroup
 	wg.Add(2)
